@@ -135,11 +135,52 @@ def server_parity(ctx, ncases, nops):
     return programs, disagreements, samples, len(nontriv)
 
 
+def client_parity(ctx, ncases, nops):
+    """Client vs AsyncClient: histories generated on the threaded client, replayed on the asyncio client"""
+    from .. import client_cases as K
+    rng = ctx.rng
+    programs = disagreements = 0
+    for i in range(ncases):
+        profile = 'c08' if i % 2 == 0 else 'c09'
+        case, recs1, _orc = K.gen_case(rng, 'threading', profile, rng.randint(nops // 2, nops))
+        case2 = dict(case, mode='asyncio')
+        try:
+            recs2, _ = K.exec_case(case2)
+        except Exception as ex:   # noqa
+            ctx.violation('oracle', 'AsyncClient could not execute a history the threaded Client executed: %r' % (ex,),
+                          {'kernel': 'client', 'case': K.case_json(case)})
+            disagreements += 1
+            continue
+        programs += 1
+        for j, (a, b) in enumerate(zip(recs1, recs2)):
+            ca, cb = K.canon_impl(a), K.canon_impl(b)
+            sa, sb = K.canon_snap_impl(a['snap']), K.canon_snap_impl(b['snap'])
+            if ca != cb or sa != sb:
+                disagreements += 1
+                ctx.violation('oracle', 'Client and AsyncClient behave differently at op %d (%r): threaded=%r asyncio=%r'
+                              % (j, case['ops'][j].get('op'), (ca, sa), (cb, sb)),
+                              {'kernel': 'client', 'case': K.case_json(dict(case, ops=case['ops'][:j + 1])),
+                               'threaded': repr((ca, sa)), 'asyncio': repr((cb, sb))})
+                break
+        ctx.count('client_parity_cases')
+    return programs, disagreements
+
+
 def run(ctx):
     a = C.proof_step(ctx, ['parity itself is decided by executing the same scenarios on both families (translation validation); '
                            'the theorems cover only the source-derived tables'])
     programs, disagreements, samples, nontriv = server_parity(ctx, ctx.scale(120, 2500), 50)
     sub = {}
+    try:
+        cp, cd = client_parity(ctx, ctx.scale(150, 3000), 24)
+        programs += cp
+        disagreements += cd
+        sub['client'] = {'programs': cp, 'disagreements': cd}
+    except ImportError:
+        pass
+    sub['by_construction'] = ('the checks of C03 (managers), C08/C09 (clients), C10 (reconnection), C19 (simple clients), '
+                              'C07/C15 (pub/sub managers), C18 (admin) execute every generated scenario on the threaded and on the '
+                              'asyncio class against ONE deterministic Lean model; agreement with the same function implies parity')
     # the other kernels' own double runs (each executes its scenarios on both families against one model)
     for name in ('c03', 'c08', 'c09', 'c10', 'c19', 'c07', 'c15'):
         try:
